@@ -27,6 +27,24 @@ static void run(const std::vector<std::string>& ops)
     if (t[0] == "rsz") v.resize(N(1), N(2) != 0);
     else if (t[0] == "rszd") v.resize(N(1));                         // DEFAULT ARGUMENT: resize(n) == resize(n, false)
     else if (t[0] == "set1") v[N(1)].set(N(2));                      // DEFAULT ARGUMENT: set(n) == set(n, 1)
+    else if (t[0] == "setv") v[N(1)].set(N(2), N(3));                // MAGNITUDE: "sets bit n if val is nonzero" with val outside {0,1}
+    else if (t[0] == "asgo") {                                       // PRE-EXISTING STATE: whole-vector assignment onto vectors of another size / other content
+      BV w(N(1), N(2) != 0); w = v;
+      if (w.size() != v.size() || w.count() != v.count()) flags += "!asgo";
+      v = BV((int) v.size() + 2, true); v = w;
+    }
+    else if (t[0] == "xblk" || t[0] == "xblkc" || t[0] == "xand" || t[0] == "xior" || t[0] == "xxor") {
+      // TWO PARTICIPANTS: the source block lives in ANOTHER BitSetVector with a different number of blocks (x..:i:<bits>:m:k = block k of an m-block vector)
+      BV w(N(3), (N(4) % 2) != 0); w[N(4)] = bits_of<bs>(t[2]); const BV& cw = w;
+      if (t[0] == "xblk") v[N(1)] = w[N(4)]; else if (t[0] == "xblkc") v[N(1)] = cw[N(4)];
+      else if (t[0] == "xand") v[N(1)] &= cw[N(4)]; else if (t[0] == "xior") v[N(1)] |= w[N(4)]; else v[N(1)] ^= cw[N(4)];
+      if (!(w[N(4)] == bits_of<bs>(t[2]))) flags += "!xsrc";          // the source block is unaffected
+    }
+    else if (t[0] == "shlb" || t[0] == "shrb") {                     // MAGNITUDE: shift counts at the 2^31 / 2^32 / 2^63 / SIZE_MAX boundaries
+      static const std::size_t big[] = { (std::size_t) 1 << 31, ((std::size_t) 1 << 31) + 1, (std::size_t) 1 << 32, (std::size_t) 1 << 63, ~(std::size_t) 0 };
+      std::size_t k = big[N(2) % 5];
+      if (t[0] == "shlb") v[N(1)] <<= k; else v[N(1)] >>= k;
+    }
     else if (t[0] == "cl") v.clear();
     else if (t[0] == "sall") v.setAll();
     else if (t[0] == "uall") v.unsetAll();
@@ -106,6 +124,9 @@ static void run(const std::vector<std::string>& ops)
       std::ostringstream os; os << cv; std::string exp;
       for (std::size_t i = 0; i < cv.size(); ++i) { exp += "("; for (int j = 0; j < bs; ++j) exp += cv[(int) i].test(j) ? "1" : "0"; exp += ")  "; }
       if (os.str() != exp) flags += "!print";
+      // STREAM STATE (audit 2, kind C): NOT checked.  operator<< of a block writes each bit as a bool (`s << v[i]`), so the output follows the
+      // stream's basefield / showbase / boolalpha ("(0x10x1)" under hex + showbase, "(truefalse)" under boolalpha), unlike std::bitset's
+      // operator<<.  Printing is outside the statement of C11; recorded in mutants/C11/API_COVERAGE.md, not judged.
     }
     // iteration and back()
     std::size_t k = 0;
